@@ -8,7 +8,7 @@ use crate::Params;
 use graaf::*;
 use std::fmt::Debug;
 
-fn check<W: Copy + Ord + Debug>(dm: &DistanceMatrix<W>, rows: &[Vec<W>], inf: W, o: &mut CaseOut, tag: &str) -> bool {
+fn check<W: Copy + Default + Ord + std::hash::Hash + std::fmt::Debug + Send + Sync + 'static>(dm: &DistanceMatrix<W>, rows: &[Vec<W>], inf: W, o: &mut CaseOut, tag: &str) -> bool {
     let n = rows.len();
     o.eq(&format!("{tag}:order"), &dm.order, &n);
     // indexing
